@@ -28,7 +28,7 @@ CLAIMED = {
  "C11": ("exploration", DST + "concurrent journalling under I/O-granular seeded schedules with injected append failures, then every byte flip / truncation / entry permutation of the harvested journal through the real loader",
          "(a) 2-4 clients issue journalled commands concurrently (purge under the shared lock), with and without injected open/write/fsync failures on the state log; the journal must load with consecutive indices and the server must start from it. (b) exhaustive single-byte mutations, truncation lengths and entry permutations of small journals (sampled for large ones): the loader reports them or returns a prefix only for the loss of a whole suffix; never a panic, never another history.", "length fields are only mutated in their low three bytes (the loader allocates what they announce)", "4.C11"),
  "C12": ("exploration", DST + "N producers + M pollers + flusher + saver + evictor on one partition under seeded schedules; history predicates",
-         "Batch-contiguous interleaving, per-producer order, nothing lost/twice, every poll a contiguous run equal to the final log, no partial batch visible, acknowledged-under-wait implies visible (event sequence numbers). The no-wait visibility hole is a listed known finding.", "file writes complete inline (tokio's deferred File write is not modelled)", "4.C12"),
+         "Batch-contiguous interleaving, per-producer order, nothing lost/twice, every poll a contiguous run equal to the final log, no partial batch visible, acknowledged-under-wait implies visible (event sequence numbers).", "in 40% of the runs file writes are handed over and completed later by a simulator-scheduled task, as tokio's File does (hook H11); lock acquisitions are scheduling points (hook H10)", "4.C12"),
  "C13": ("exploration", DST + "every exchange real SDK encoder -> simulated byte stream -> real server decoder/handler -> real SDK decoder compared with the model under a value swarm; malformed frames from a raw connection",
          "All model-equality oracles are wire-agreement oracles under the C13 swarm (boundary name lengths, empty/absent optionals, header kinds, fragmenting pipe capacities); garbage/truncated/mutated frames and mid-frame closes on a second connection must leave the catalogue, logs and other connections untouched (judged by the audits that follow).", "the context-free codec round trip over all values is sampled, not enumerated (DESIGN 6); HTTP/JSON driven for the administrator's catalogue commands in 30% of the runs", "4.C13"),
  "C14": ("exploration", DST + "expiring topics, clock jumps on both sides of the expiry, maintenance passes, expiry updates, restarts",
